@@ -34,7 +34,8 @@ NAME_MAP = {
     'AsyncManager': 'Manager', 'AsyncPubSubManager': 'PubSubManager',
     'async_manager.AsyncManager': 'manager.Manager',
     'AsyncSocket': 'Socket', 'InstrumentedAsyncServer': 'InstrumentedServer',
-    'asyncio.Event': 'Event', 'asyncio.sleep': 'time.sleep',
+    'asyncio.Event': 'Event', 'threading.Event': 'Event',
+    'asyncio.sleep': 'time.sleep',
     'aioredis.Redis': 'redis.Redis', 'aioredis': 'redis',
     'RedisError': 'redis.exceptions.RedisError',
 }
